@@ -90,8 +90,14 @@ fn text_of_first_token(node: &SyntaxNode) -> TokenText<'_> {
 // }
 
 impl ast::AssignmentStmt {
+    /// The left-hand side, if it is a plain identifier (and not an indexed identifier).
     pub fn identifier(&self) -> Option<ast::Identifier> {
-        support::child(&self.syntax)
+        // The first child expression is the left-hand side. Looking for the first `Identifier`
+        // child instead would find the right-hand side of `v[1] = a;`.
+        match support::children::<ast::Expr>(self.syntax()).next() {
+            Some(ast::Expr::Identifier(identifier)) => Some(identifier),
+            _ => None,
+        }
     }
 }
 
